@@ -42,6 +42,30 @@ structure MassName where
   byLower : Option Nat
   deriving Repr, DecidableEq
 
+/-- how the code treats a reaction order given in some form (`1.5`, `1.0`, `numpy.int64(1)`, `True`, `'1'`): `toRows` = the integer
+orders 0 / 1 / 2 whose traced conversion chains (all flow units, all mass units) are the chains `_to_si` performs for this order;
+`fromRows` the same for `_from_si`.  Filled in by symbolic tracing on every run. -/
+structure OrderProbe where
+  label : String
+  value : Option Rat
+  param : Nat
+  toRows : List Nat
+  fromRows : List Nat
+  deriving Repr, DecidableEq
+
+/-- the branch structure on `reaction_order` of `QualParam._to_si` / `_from_si`, read by `ast`: the statements that re-assign
+the order (a normalisation such as `int(float(order))`) and the comparisons made on it, in source order -/
+structure OrderBranching where
+  normTo : List String
+  normFrom : List String
+  testsTo : List String
+  testsFrom : List String
+  deriving Repr, DecidableEq
+
+/-- the row of the traced table both directions use for an ARBITRARY order: `== 1`, `== 0`, anything else converts like order 2
+(no order-specific factor) -/
+def orderRow (o : Rat) : Nat := if o = 1 then 1 else if o = 0 then 0 else 2
+
 /-- the ten flow-unit keywords of an EPANET INP file -/
 def epanetKeywords : List String := ["CFS", "GPM", "MGD", "IMGD", "AFD", "LPS", "LPM", "MLD", "CMH", "CMD"]
 def usKeywords : List String := ["CFS", "GPM", "MGD", "IMGD", "AFD"]
